@@ -178,6 +178,7 @@ pub fn execute(case: &Case) -> Verdict {
         "corrupt" => crate::corrupt::execute(case),
         "long" => crate::long::execute(case),
         "cfg" => crate::cfg::execute(case),
+        "compat" => crate::compat::execute(case),
         other => Verdict { harness_error: Some(format!("unknown engine {}", other)), ..Default::default() },
     }
 }
